@@ -426,3 +426,49 @@ M('c02-aslist-phase', ['C02', 'C09'], PP, "        gs = numpy.expand_dims(self.g
 M('dep-c09-combine', ['C09', 'C10', 'C19', 'C12', 'C04'], PU, 'ipow(gs_out[j_out], gs_in[j_in]))%4', 'ipow(gs_in[j_in], gs_out[j_out]))%4', ['R7c'])
 M('dep-c14-coin', ['C14', 'C19'], PU, '            ps_stb[p] = 2 * numpy.random.randint(2)', '            ps_stb[p] = 2 * numpy.random.randint(3)', ['R15', 'R11'])
 M('dep-c18-rotate', ['C18', 'C10', 'C05'], PU, 'ps[j] = (ps[j] + p + 1 + ipow(gs[j], g))%4', 'ps[j] = (ps[j] + p + 3 + ipow(gs[j], g))%4', ['R7c'])
+
+# ------------------------------------------------------------------ twins of the round-2 rules (correct versions of the same refactors)
+B('r2-benign-take-iterative-tc', ['C09', 'C13', 'C18'], TC,
+  "        if self.prev_layer is None: # if I have no previous layer\n            self.gates.append(gate) # I will take the gate\n        else: # if I have a previous layer, check it\n            if self.prev_layer.independent_from(gate): # if independent (not overlapping)\n                self.prev_layer.take(gate) # previous layer take the gate\n            else: # if not independent\n                self.gates.append(gate) # I will have to keep the gate\n",
+  "        layer = self\n        while layer.prev_layer is not None and layer.prev_layer.independent_from(gate):\n            layer = layer.prev_layer\n        layer.gates.append(gate)\n")
+M('r2-take-iterative-tc-wrong-layer', ['C09', 'C13', 'C18'], TC,
+  "        if self.prev_layer is None: # if I have no previous layer\n            self.gates.append(gate) # I will take the gate\n        else: # if I have a previous layer, check it\n            if self.prev_layer.independent_from(gate): # if independent (not overlapping)\n                self.prev_layer.take(gate) # previous layer take the gate\n            else: # if not independent\n                self.gates.append(gate) # I will have to keep the gate\n",
+  "        layer = self\n        while layer.prev_layer is not None and layer.independent_from(gate):\n            layer = layer.prev_layer\n        layer.gates.append(gate)\n", ['R11.take'])
+B('r2-benign-circuit-take-scan', ['C09', 'C18'], PC,
+  "            self.last_layer.take(gate) # the last layer takes the gate\n",
+  "            target = self.last_layer\n            for layer in self.layers_backward():\n                if layer.independent_from(gate):\n                    target = layer\n                else:\n                    break\n            target.gates.append(gate)\n", 'CliffordCircuit.take')
+M('r2-circuit-take-scan-no-break', ['C09', 'C18'], PC,
+  "            self.last_layer.take(gate) # the last layer takes the gate\n",
+  "            target = self.last_layer\n            for layer in self.layers_backward():\n                if layer.independent_from(gate):\n                    target = layer\n            target.gates.append(gate)\n", ['R11.take'], 'CliffordCircuit.take')
+B('r2-benign-copy-prev-pointer', ['C09', 'C17', 'C13'], TC,
+  "        for i, layer in enumerate(self.layers_forward()):\n            new_layer = layer.copy()\n            if i == 0:\n                circ.first_layer = new_layer\n                circ.last_layer = new_layer\n            else:\n                circ.last_layer.next_layer = new_layer\n                new_layer.prev_layer = circ.last_layer\n                circ.last_layer = new_layer\n",
+  "        prev = None\n        for layer in self.layers_forward():\n            new_layer = layer.copy()\n            if prev is None:\n                circ.first_layer = new_layer\n            else:\n                prev.next_layer = new_layer\n                new_layer.prev_layer = prev\n            prev = new_layer\n            circ.last_layer = new_layer\n", 'CliffordCircuit.copy')
+M('r2-copy-prev-pointer-stuck', ['C09', 'C17', 'C13'], TC,
+  "        for i, layer in enumerate(self.layers_forward()):\n            new_layer = layer.copy()\n            if i == 0:\n                circ.first_layer = new_layer\n                circ.last_layer = new_layer\n            else:\n                circ.last_layer.next_layer = new_layer\n                new_layer.prev_layer = circ.last_layer\n                circ.last_layer = new_layer\n",
+  "        prev = None\n        for layer in self.layers_forward():\n            new_layer = layer.copy()\n            if prev is None:\n                circ.first_layer = prev = new_layer\n            else:\n                prev.next_layer = new_layer\n                new_layer.prev_layer = prev\n            circ.last_layer = new_layer\n", ['R10.link'], 'CliffordCircuit.copy')
+M('r2-copy-missing-prev-link', ['C09', 'C17'], PC,
+  "                circ.last_layer.next_layer = new_layer\n                new_layer.prev_layer = circ.last_layer\n                circ.last_layer = new_layer\n",
+  "                circ.last_layer.next_layer = new_layer\n                circ.last_layer = new_layer\n", ['R10.link'], 'CliffordCircuit.copy')
+B('r2-benign-buffer-cleared-by-hand', ['C14'], PC,
+  "                for ii in range(1,len(measure_result)+1):\n                    tmp = list(np.zeros(self.N).astype(int))\n                    tmp[self.qubits[-ii]]=3\n                    tmp_res = int((1-measure_result[-ii])/2)\n                    prob = obj.postselect(pauli(tmp), tmp_res)\n",
+  "                tmp = list(np.zeros(self.N).astype(int))\n                for ii in range(1,len(measure_result)+1):\n                    tmp[self.qubits[-ii]]=3\n                    tmp_res = int((1-measure_result[-ii])/2)\n                    prob = obj.postselect(pauli(tmp), tmp_res)\n                    tmp[self.qubits[-ii]]=0\n")
+B('r2-benign-sampler-asarray', ['C16'], PU,
+  "            random_clifford_(gs[2:,2:])\n            for g in reversed(gens):", "            random_clifford_(gs[2:,2:])\n            gs = numpy.asarray(gs)\n            for g in reversed(gens):")
+B('r2-benign-coin-named-in-loop', ['C06', 'C14', 'C16'], PU,
+  "            ps_stb[p] = 2 * numpy.random.randint(2)\n", "            coin = 2 * numpy.random.randint(2)\n            ps_stb[p] = coin\n", 'stabilizer_measure')
+B('r2-benign-pivot-tuple-correct', ['C18', 'C16'], PU,
+  "                g[2*i] = (g[2*i] + g[2*i+1])%2\n                g[2*i+1] = (g[2*i+1] + g[2*i])%2\n", "                g[2*i], g[2*i+1] = (g[2*i] + g[2*i+1])%2, g[2*i]\n", 'pauli_diagonalize1')
+M('r2-pivot-swap-only', ['C18'], PU,
+  "                g[2*i] = (g[2*i] + g[2*i+1])%2\n                g[2*i+1] = (g[2*i+1] + g[2*i])%2\n", "                g[2*i], g[2*i+1] = g[2*i+1], g[2*i]\n", ['R8.pivot'], 'pauli_diagonalize1')
+B('r2-benign-outer', ['C01', 'C13', 'C15'], TU, 'cs = (cs1.unsqueeze(1)*cs2.unsqueeze(0)).view(-1,)', 'cs = torch.outer(cs1, cs2).view(-1,)')
+B('r2-benign-paulis-fastpath', ['C20'], PP,
+  "    # otherwise construct data for Pauli operators\n    objs = [pauli(obj, N = N) for obj in objs]",
+  "    if isinstance(objs, numpy.ndarray) and objs.ndim == 2 and objs.shape[1] > 1 and (objs[:,-1] >= 4).all() and (objs[:,:-1] < 4).all():\n        codes = objs[:,:-1]\n        ps = numpy.array([0, 2, 1, 3])[objs[:,-1] - 4]\n        gs = numpy.zeros((codes.shape[0], 2*codes.shape[1]), dtype=numpy.int_)\n        gs[:,0::2] = (codes == 1) | (codes == 2)\n        gs[:,1::2] = (codes == 2) | (codes == 3)\n        return PauliList(gs, ps)\n    # otherwise construct data for Pauli operators\n    objs = [pauli(obj, N = N) for obj in objs]")
+M('r2-paulis-fastpath-swapped', ['C20'], PP,
+  "    # otherwise construct data for Pauli operators\n    objs = [pauli(obj, N = N) for obj in objs]",
+  "    if isinstance(objs, numpy.ndarray) and objs.ndim == 2 and objs.shape[1] > 1 and (objs[:,-1] >= 4).all() and (objs[:,:-1] < 4).all():\n        codes = objs[:,:-1]\n        ps = numpy.array([0, 1, 2, 3])[objs[:,-1] - 4]\n        gs = numpy.zeros((codes.shape[0], 2*codes.shape[1]), dtype=numpy.int_)\n        gs[:,0::2] = (codes == 1) | (codes == 2)\n        gs[:,1::2] = (codes == 2) | (codes == 3)\n        return PauliList(gs, ps)\n    # otherwise construct data for Pauli operators\n    objs = [pauli(obj, N = N) for obj in objs]", ['R12.reader'])
+M('r2-coin-shared', ['C06', 'C16'], PU,
+  "    log2prob = 0.\n    for k in range(L): # for each observable gs_obs[k]\n        update = False", "    log2prob = 0.\n    bit = numpy.random.randint(2)\n    for k in range(L): # for each observable gs_obs[k]\n        update = False", ['R15.fresh', 'R11'], 'stabilizer_measure') if False else None
+CASES.append({'id': 'r2-coin-shared', 'props': ['C06', 'C16'], 'kind': 'mutant', 'rules': ['R15.fresh'], 'edits': [
+    (PU, "    log2prob = 0.\n    for k in range(L): # for each observable gs_obs[k]\n        update = False", "    log2prob = 0.\n    bit = numpy.random.randint(2)\n    for k in range(L): # for each observable gs_obs[k]\n        update = False", 'stabilizer_measure'),
+    (PU, "            ps_stb[p] = 2 * numpy.random.randint(2)\n", "            ps_stb[p] = 2 * bit\n", 'stabilizer_measure')]})
